@@ -5,7 +5,13 @@
    for every schedule, fewer bytes than a block give end-of-file (none) or an error (some) for every schedule, and
    ReadFromSTL with its blocks obtained through readNBytes under any schedule (each block read continuing where the
    previous one stopped; a block split across reads, zero-length reads, data arriving with the end-of-file) equals the
-   one-shot reader (C17_stl).  TTML and teletext hand the stream to encoding/xml and astits: covered by the harness only. *)
+   one-shot reader (C17_stl).
+   TTML: ReadFromTTML hands the stream to xml.Decoder, whose own read loop (a bufio.Reader filled by whatever the
+   stream returns) is a CONTRACT here: the token tree it delivers does not depend on the read sizes.  From the token
+   tree on, the reader model (Model/Ttml.v read_ttml; at byte level Model/PlainTtml.v read_ttml_bytes = XML parser
+   model, then read_ttml) is a function of the whole document with no schedule parameter, so nothing schedule-dependent
+   is left to prove; the harness delivers TTML documents under every schedule family and compares with the one-shot
+   read.  Teletext hands the stream to astits: covered by the harness only. *)
 From Coq Require Import List NArith Bool Arith.
 From Astisub Require Import Kit.Base Kit.Scan Model.Srt Model.Vtt Proofs.ScanProofs Proofs.SrtIOProofs Proofs.VttIOProofs.
 From Astisub Require Import Model.Ssa Proofs.SsaIOProofs.
